@@ -52,4 +52,7 @@ example : (crash (run ⟨[], []⟩ (srvWrite 0 [1, 2, 3] ++ [.writeAt 1 [9]]))).
 /-- regenerated from the source on every run: COMMIT returns an error when it cannot open the file for the flush -/
 theorem gen_commit_open_failure : Gen.commitFailsWhenOpenFails = true := by decide
 
+/-- the count in a WRITE reply is the number of bytes the backend wrote and synced, not the number requested -/
+theorem gen_write_reply_count : Gen.writeReplyCountIsBytesWritten = true := by decide
+
 end Props.C22
